@@ -101,3 +101,9 @@ Proof. unfold in_i32, to_i32, two31, two32; intros H; destruct (Z.ltb_spec u 214
 
 Lemma sum_Z_app a b : sum_Z (a ++ b) = sum_Z a + sum_Z b.
 Proof. induction a as [|x a IH]; cbn [sum_Z app]; lia. Qed.
+
+Lemma skipn_skipn_ {A} (x y : nat) (l : list A) : skipn x (skipn y l) = skipn (y + x) l.
+Proof.
+  revert l; induction y as [|y IH]; intros l; cbn [Nat.add]; [rewrite skipn_O; reflexivity|].
+  destruct l as [|a l]; [rewrite !skipn_nil; reflexivity|]. rewrite !skipn_cons. apply IH.
+Qed.
